@@ -266,6 +266,12 @@ func c16Proposal(c *fw.Ctx, e *Env, g *Gen, r *fw.Rand) {
 		return
 	}
 	c.Count("proposals", 1)
+	if module == "enterprise" {
+		c16SignerEffectProbe(c, e)
+		if e.Halted != "" {
+			return
+		}
+	}
 	after := ""
 	switch module {
 	case "enterprise":
@@ -323,6 +329,40 @@ func c16Proposal(c *fw.Ctx, e *Env, g *Gen, r *fw.Rand) {
 			c16StaleFeeProbe(c, e, g, false, oldBeacon.FeeRecord, oldBeacon.Denom, "in force before the update")
 		}
 	}
+}
+
+// c16SignerEffectProbe: whatever the proposal did - applied, refused, rolled back - the signer list
+// that is STORED now is the one in force: every account tries to whitelist a fresh address (its own
+// canonical spelling in the signer field, however the list spells it); exactly the listed accounts
+// succeed.
+func c16SignerEffectProbe(c *fw.Ctx, e *Env) {
+	set, _ := signerSet(e.Last.EntParams)
+	stored := e.Last.EntParams.EntSigners
+	e.BeginBlock(time.Second)
+	for i, a := range e.L.Accts {
+		if e.Halted != "" {
+			break
+		}
+		raw := make([]byte, 20)
+		for j := range raw {
+			raw[j] = byte(e.R.Intn(256))
+		}
+		fresh := sdk.AccAddress(raw).String()
+		resp, ok := e.Deliver(&TxPlan{Spec: lab.TxSpec{Msgs: []sdk.Msg{&enttypes.MsgWhitelistAddress{Address: fresh, Signer: a.Addr.String(), Action: enttypes.WhitelistActionAdd}}, Signers: []lab.Acct{a}, Gas: 1_000_000}, Desc: fmt.Sprintf("signer-effect probe by a%d", i)})
+		if !ok {
+			continue
+		}
+		c.Count("signer_effect_probes", 1)
+		listed := set[ownerHex(a.Addr.String())]
+		switch {
+		case listed && resp.Code != 0:
+			c.Violate("stored-signers-not-in-effect", "listed-signer-refused", "a%d (%s) is in the stored signer list {%s} but its whitelist message was refused: code %d %s", i, a.Addr, stored, resp.Code, firstN(resp.Log, 160))
+		case !listed && resp.Code == 0:
+			c.Violate("stored-signers-not-in-effect", "unlisted-account-accepted", "a%d (%s) is not in the stored signer list {%s} but its whitelist message was accepted", i, a.Addr, stored)
+		}
+		c.Distinct(fmt.Sprintf("signer-effect/listed=%v/ok=%v", listed, resp.Code == 0))
+	}
+	e.EndBlock()
 }
 
 func oneLine(s string) string { return strings.Join(strings.Fields(s), " ") }
